@@ -163,7 +163,7 @@ func libraryStreams(rng *rand.Rand, n int, maxLen int) []baseStream {
 
 // corpusStreams loads the frozen liblzma corpus (files up to maxLen bytes).
 func corpusStreams(maxLen int) []baseStream {
-	dir := "/verif/corpus/liblzma"
+	dir := verifRoot() + "/corpus/liblzma"
 	var out []baseStream
 	ents, _ := os.ReadDir(dir)
 	var names []string
